@@ -41,7 +41,16 @@ Inductive case :=
     with [P] processors, with ([tr] = true) or without runtime/trace active *)
 | CSeq (P : N) (tr : bool) (ops : list op) (tbl : list snap) (h : list ev) (rereads : list N)
 (** free-running fragment: recorded history of one span shared by racing goroutines *)
-| CHist (P : N) (tr : bool) (tbl : list snap) (h : list ev) (rereads : list N).
+| CHist (P : N) (tr : bool) (tbl : list snap) (h : list ev) (rereads : list N)
+(** the same under span limits: [drops] gives, per snapshot number, the DroppedAttributes / DroppedEvents /
+    DroppedLinks read together with it *)
+| CLim (P : N) (tr : bool) (lims : limits) (tbl : list snap) (drops : list dropped) (h : list ev) (rereads : list N).
+
+Definition LM (a e l : N) : limits := {| lim_attr := optn a; lim_event := optn e; lim_link := optn l |}.
+Definition DR (a e l : N) : dropped := {| d_attr := n2 a; d_event := n2 e; d_link := n2 l |}.
+Definition no_drop : dropped := DR 0 0 0.
+Definition conv_lim (tbl : list snap) (drops : list dropped) (e : ev) : event * dropped :=
+  (conv tbl e, match e with O _ i => nth (n2 i) drops no_drop | _ => no_drop end).
 
 (** Model side of the deterministic fragment.  End times are compared up to "zero or
     not" (the harness numbers distinct end times 1, 2, …; the model stamps the winner's id);
@@ -81,6 +90,10 @@ Definition check_case (c : case) : list N :=
       flag (spec_ok (n2 P) m) V_MODELSPEC
   | CHist P tr tbl h rr =>
       flag (judge (n2 P) tbl h rr) V_SPECFAIL
+  | CLim P tr lims tbl drops h rr =>
+      let hh := map (conv_lim tbl drops) h in
+      flag (spec_lim_ok lims (n2 P) hh &&
+            stable_lim_ok hh (map (fun i => (nth (n2 i) tbl dummy_snap, nth (n2 i) drops no_drop)) rr)) V_SPECFAIL
   end.
 
 Definition run (cs : list case) : list (N * N) := index_from 0 check_case cs.
